@@ -58,6 +58,34 @@ def run_instances(c, insts, wd, kind, watches=()):
     return traces, meta, skipped
 
 
+def run_pair_instances(c, pairs, wd, kind):
+    """Two (or three) snapshot tracepoints on one line, each with its OWN limits, collecting the same frame in one event:
+    every snapshot is judged against the Collector machine under the limits of its own tracepoint."""
+    runner = G.CollectorRun(wd)
+    traces, meta = [], []
+    for insts in pairs:
+        built = G.build(insts[0])
+        if built is None:
+            continue
+        res, by, escaped = runner.run_pair(insts, built)
+        for k, inst in enumerate(insts):
+            hdr = G.instance_header(inst, built)
+            problem, result = None, None
+            if res != ('ok', 0) or escaped:
+                problem = 'host changed / handler raised: %r %r' % (res, escaped)
+            elif len(by.get(k, [])) != 1:
+                problem = 'expected 1 snapshot of tracepoint %d of the line, got %d' % (k, len(by.get(k, [])))
+            else:
+                try:
+                    result = G.project(by[k][0], built)
+                except ValueError as ex:
+                    problem = str(ex)
+            traces.append([hdr, result if result is not None else {'order': [], 'kids': [], 'vlen': [], 'trunc': [], 'wres': []}])
+            meta.append({'kind': '%s (tracepoint %d of %d on the line)' % (kind, k + 1, len(insts)), 'instance': hdr,
+                         'problem': problem, 'nvars': len(result['order']) if result else 0})
+    return traces, meta
+
+
 def run_frame_instances(c, insts, wd, kind):
     """Instances with frames below the paused one (frame_type all_frame): one table, one budget, one identity cache."""
     runner = G.CollectorRun(wd)
@@ -266,6 +294,21 @@ def run(c):
     # the frames below the paused one (frame_type all_frame)
     fr = [with_frames(rng, G.random_instance(rng, max_nodes=8)) for _ in range(150 if quick else 4000)]
     traces, meta, sk4 = run_frame_instances(c, fr, wd, 'frames')
+    validate(c, traces, meta)
+    # several snapshot tracepoints on one line, each with limits of its own (a wide one first, a narrow one later, and
+    # the other way round): every tracepoint's limits bound ITS snapshot
+    pairs = []
+    for _ in range(60 if quick else 2500):
+        a = G.random_instance(rng, max_nodes=9)
+        lims = [dict(maxVars=1000, maxStr=1024, maxColl=10, maxDepth=5),
+                dict(maxVars=rng.choice([1, 2, 3, 5]), maxStr=rng.choice([0, 1, 2]), maxColl=rng.choice([0, 1, 2]),
+                     maxDepth=rng.choice([1, 2, 3]))]
+        if rng.random() < 0.5:
+            lims.reverse()
+        if rng.random() < 0.3:
+            lims.append(dict(maxVars=rng.choice([2, 8]), maxStr=5, maxColl=3, maxDepth=2))
+        pairs.append([dict(a, **lm) for lm in lims])
+    traces, meta = run_pair_instances(c, pairs, wd, 'limits-per-tracepoint')
     validate(c, traces, meta)
     # two threads collecting at once, each within its own tracepoint's limits
     traces, meta = concurrent_collections(c, rng, wd, 6 if quick else 80, 25 if quick else 120)
